@@ -392,27 +392,23 @@ let run_case (line : string) =
          | [nm; src] -> (nm, str_of_field nm, str_of_field src) | _ -> failwith "file") (split '|' files) in
      let dflt_tags = List.map str_of_ascii ["script"; "style"; "textarea"; "title"] in
      let dflt_voids = List.map str_of_ascii ["!doctype"; "area"; "base"; "br"; "col"; "embed"; "hr"; "img"; "input"; "link"; "meta"; "source"; "track"; "wbr"] in
-     let tbl : (string, (n list * n list * n list * string list ref)) Hashtbl.t = Hashtbl.create 16 in
-     let order = ref [] in
+     (* the whole catalogue is computed by the Coq model (Sys/XtplCat.v: catalogue = the merge done by Save) *)
      let failed = ref false in
-     List.iter (fun (_, nm, src) ->
+     let roots = List.concat_map (fun (_, nm, src) ->
        match load is_space to_lower dflt_tags dflt_voids ap parse_ok src with
-       | Inr _ -> failed := true
-       | Inl root ->
-         let ents = extract_node is_letter is_udigit ap (nat_of_int 300) kws root in
-         List.iter (fun e ->
-           let key = dots e.en_ctxt ^ "|" ^ dots e.en_id in
-           let r = Printf.sprintf "%s:%d:%d" (String.concat "" (List.map (fun c -> String.make 1 (Char.chr (int_of_n c))) nm)) (int_of_n e.en_line) (int_of_n e.en_col) in
-           match Hashtbl.find_opt tbl key with
-           | Some (_, _, _, refs) -> refs := r :: !refs
-           | None -> Hashtbl.replace tbl key (e.en_ctxt, e.en_id, e.en_id2, ref [r]); order := key :: !order) ents) files;
+       | Inr _ -> failed := true; []
+       | Inl root -> [(nm, root)]) files in
      if !failed then add "ERR xtpl failed"
      else begin
+       let cat = catalogue is_letter is_udigit ap (nat_of_int 300) kws roots in
        let enc s = if s = [] then "-" else String.concat "," (List.map (fun c -> string_of_int (int_of_n c)) s) in
-       let lines = List.map (fun key ->
-         let (c, i, p, refs) = Hashtbl.find tbl key in
-         Printf.sprintf "(%s|%s|%s|%s)" (enc c) (enc i) (enc p) (String.concat "," (List.sort compare !refs))) !order in
-       add ("OK header " ^ String.concat "" (List.sort compare lines))
+       let fname nm = String.concat "" (List.map (fun c -> String.make 1 (Char.chr (int_of_n c))) nm) in
+       let hdr = if List.exists (fun ce -> ce.ce_hdr) cat then "header" else "noheader" in
+       let lines = List.filter_map (fun ce ->
+         if ce.ce_hdr then None else
+         let refs = List.map (fun ((f, l), c) -> Printf.sprintf "%s:%d:%d" (fname f) (int_of_n l) (int_of_n c)) ce.ce_refs in
+         Some (Printf.sprintf "(%s|%s|%s|%s)" (enc ce.ce_ctxt) (enc ce.ce_id) (enc ce.ce_id2) (String.concat "," (List.sort compare refs)))) cat in
+       add ("OK " ^ hdr ^ " " ^ String.concat "" (List.sort compare lines))
      end
    | ["fs"; sub; files] ->
      let split_path (s : n list) : n list list =
